@@ -82,7 +82,7 @@ func Main() {
 	}
 }
 
-const watchdog = 3 * time.Second
+const watchdog = 2 * time.Second
 
 var leakedSoFar int
 
